@@ -319,8 +319,8 @@ class Tripwires:
 
 
 # ------------------------------------------------------------------- window
-_OS_FUNCS = ("stat", "lstat", "getcwd", "chdir", "readlink", "listdir", "mkdir", "unlink", "remove", "rmdir", "rename", "replace", "access", "open", "write", "read", "close", "fsync", "fdatasync", "fstat", "utime", "scandir", "fdopen")
-_UNMODELLED = ("makedev", "symlink", "link", "truncate", "ftruncate", "chmod", "chown", "mkfifo", "statvfs", "getcwdb", "fwalk", "lseek", "dup", "dup2", "pipe", "sendfile")
+_OS_FUNCS = ("stat", "lstat", "getcwd", "chdir", "readlink", "listdir", "mkdir", "unlink", "remove", "rmdir", "rename", "replace", "access", "open", "write", "read", "close", "fsync", "fdatasync", "fstat", "utime", "scandir", "fdopen", "chmod", "lchmod", "fchmod", "chown", "lchown", "fchown", "symlink", "link", "truncate", "ftruncate")
+_UNMODELLED = ("mkfifo", "mknod", "statvfs", "fwalk", "lseek", "dup", "dup2", "pipe", "sendfile", "openpty")
 
 
 class Window:
@@ -343,7 +343,8 @@ class Window:
         builtins.open = fs.open
         io.open = fs.open
         for name in _OS_FUNCS:
-            sv["os." + name] = getattr(os, name)
+            if hasattr(os, name):
+                sv["os." + name] = getattr(os, name)
         os.stat = fs.stat
         os.lstat = fs.lstat
         os.getcwd = fs.getcwd
@@ -366,6 +367,17 @@ class Window:
         os.fdatasync = os.fsync
         os.fstat = lambda fd: fs.os_fstat(fd) if fd >= fs.FD_BASE else real_fstat(fd)
         os.utime = fs.utime
+        os.chmod = fs.chmod
+        os.fchmod = fs.chmod
+        if hasattr(os, "lchmod"):
+            os.lchmod = lambda p, m: fs.chmod(p, m, follow_symlinks=False)
+        os.chown = fs.chown
+        os.fchown = fs.chown
+        os.lchown = lambda p, u, g: fs.chown(p, u, g, follow_symlinks=False)
+        os.symlink = fs.symlink
+        os.link = fs.link
+        os.truncate = fs.truncate
+        os.ftruncate = fs.truncate
         os.scandir = fs.scandir
         os.fdopen = lambda fd, *a, **k: fs.fdopen(fd, *a, **k) if fd >= fs.FD_BASE else sv["os.fdopen"](fd, *a, **k)
 
